@@ -57,60 +57,61 @@ mod set_reach__par;
 mod set_reach__src1;
 mod bset__ser;
 mod cp__to;
-mod lex_lat__ser;
-mod lat_two_keys__pari;
-mod lat_pre_join__pari;
-mod lat_val_bound__pari;
-mod lat_input__gen;
-mod lat_input__runpar;
-mod count_paths__mrt;
-mod count_paths__init;
-mod neg_basic__run;
-mod neg_basic__redecl;
-mod neg_basic__exp;
-mod agg_depth__to;
-mod agg_user__par;
-mod agg_bound_mix__par;
-mod agg_empty_rel__par;
-mod agg_const_args__exppar;
-mod disj__topar;
-mod disj__srcred;
-mod disj__permpar;
-mod pat_args__ser;
-mod rep_expr__exp;
-mod neg_in_disj__par;
-mod mac_basic__topar;
-mod mac_basic__srcred;
-mod mac_capture__par;
-mod mac_nested__exppar;
-mod mac_local_names__pari;
-mod mac_disj__ser;
-mod stress_set__ser;
-mod rnd_core_01__pari;
-mod rnd_core_04__par;
-mod rnd_core_07__ser;
-mod rnd_core_09__pari;
-mod rnd_core_12__par;
-mod rnd_core_15__ser;
-mod rnd_core_17__pari;
-mod rnd_core_20__par;
-mod rnd_core_23__ser;
-mod rnd_core_25__pari;
-mod rnd_core_28__par;
-mod rnd_agg_01__ser;
-mod rnd_agg_03__pari;
-mod rnd_agg_06__par;
-mod rnd_agg_09__ser;
-mod rnd_agg_11__pari;
-mod rnd_agg_14__par;
-mod rnd_prec_01__to;
-mod rnd_prec_03__par;
-mod rnd_prec_04__topar;
-mod rnd_prec_06__pari;
-mod rnd_prec_08__ser;
-mod rnd_prea_02__ser;
-mod rnd_prea_04__pari;
-mod rnd_prea_07__par;
+mod lat_tree__to;
+mod bool_lat__ser;
+mod lat_multi_improve__pari;
+mod lat_count_all__ser;
+mod lat_input__pari;
+mod lat_input__src2;
+mod count_paths__par;
+mod count_paths__src1;
+mod neg_basic__ser;
+mod neg_basic__src0;
+mod neg_basic__srcpar;
+mod agg_minmaxsum__par;
+mod agg_lattice__par;
+mod neg_rec_after__par;
+mod agg_empty__par;
+mod agg_empty_rel__topar;
+mod agg_pre_join__pari;
+mod disj__gen;
+mod disj__runpar;
+mod disj_nested__ser;
+mod pat_args__exp;
+mod multi_head_disj__par;
+mod neg_in_disj__exppar;
+mod mac_basic__gen;
+mod mac_basic__runpar;
+mod mac_capture__exppar;
+mod mac_gensym_disj__pari;
+mod mac_block__ser;
+mod mac_disj__exp;
+mod stress_rel__ser;
+mod rnd_core_02__pari;
+mod rnd_core_05__par;
+mod rnd_core_08__ser;
+mod rnd_core_10__pari;
+mod rnd_core_13__par;
+mod rnd_core_16__ser;
+mod rnd_core_18__pari;
+mod rnd_core_21__par;
+mod rnd_core_24__ser;
+mod rnd_core_26__pari;
+mod rnd_core_29__par;
+mod rnd_agg_02__ser;
+mod rnd_agg_04__pari;
+mod rnd_agg_07__par;
+mod rnd_agg_10__ser;
+mod rnd_agg_12__pari;
+mod rnd_agg_15__par;
+mod rnd_prec_02__par;
+mod rnd_prec_03__topar;
+mod rnd_prec_05__pari;
+mod rnd_prec_07__ser;
+mod rnd_prec_08__to;
+mod rnd_prea_03__ser;
+mod rnd_prea_05__pari;
+mod rnd_prea_08__par;
 
 fn lookup(name: &str) -> fn() -> Box<dyn Driven> {
    match name {
@@ -163,60 +164,61 @@ fn lookup(name: &str) -> fn() -> Box<dyn Driven> {
       "set_reach__src1" => set_reach__src1::make,
       "bset__ser" => bset__ser::make,
       "cp__to" => cp__to::make,
-      "lex_lat__ser" => lex_lat__ser::make,
-      "lat_two_keys__pari" => lat_two_keys__pari::make,
-      "lat_pre_join__pari" => lat_pre_join__pari::make,
-      "lat_val_bound__pari" => lat_val_bound__pari::make,
-      "lat_input__gen" => lat_input__gen::make,
-      "lat_input__runpar" => lat_input__runpar::make,
-      "count_paths__mrt" => count_paths__mrt::make,
-      "count_paths__init" => count_paths__init::make,
-      "neg_basic__run" => neg_basic__run::make,
-      "neg_basic__redecl" => neg_basic__redecl::make,
-      "neg_basic__exp" => neg_basic__exp::make,
-      "agg_depth__to" => agg_depth__to::make,
-      "agg_user__par" => agg_user__par::make,
-      "agg_bound_mix__par" => agg_bound_mix__par::make,
-      "agg_empty_rel__par" => agg_empty_rel__par::make,
-      "agg_const_args__exppar" => agg_const_args__exppar::make,
-      "disj__topar" => disj__topar::make,
-      "disj__srcred" => disj__srcred::make,
-      "disj__permpar" => disj__permpar::make,
-      "pat_args__ser" => pat_args__ser::make,
-      "rep_expr__exp" => rep_expr__exp::make,
-      "neg_in_disj__par" => neg_in_disj__par::make,
-      "mac_basic__topar" => mac_basic__topar::make,
-      "mac_basic__srcred" => mac_basic__srcred::make,
-      "mac_capture__par" => mac_capture__par::make,
-      "mac_nested__exppar" => mac_nested__exppar::make,
-      "mac_local_names__pari" => mac_local_names__pari::make,
-      "mac_disj__ser" => mac_disj__ser::make,
-      "stress_set__ser" => stress_set__ser::make,
-      "rnd_core_01__pari" => rnd_core_01__pari::make,
-      "rnd_core_04__par" => rnd_core_04__par::make,
-      "rnd_core_07__ser" => rnd_core_07__ser::make,
-      "rnd_core_09__pari" => rnd_core_09__pari::make,
-      "rnd_core_12__par" => rnd_core_12__par::make,
-      "rnd_core_15__ser" => rnd_core_15__ser::make,
-      "rnd_core_17__pari" => rnd_core_17__pari::make,
-      "rnd_core_20__par" => rnd_core_20__par::make,
-      "rnd_core_23__ser" => rnd_core_23__ser::make,
-      "rnd_core_25__pari" => rnd_core_25__pari::make,
-      "rnd_core_28__par" => rnd_core_28__par::make,
-      "rnd_agg_01__ser" => rnd_agg_01__ser::make,
-      "rnd_agg_03__pari" => rnd_agg_03__pari::make,
-      "rnd_agg_06__par" => rnd_agg_06__par::make,
-      "rnd_agg_09__ser" => rnd_agg_09__ser::make,
-      "rnd_agg_11__pari" => rnd_agg_11__pari::make,
-      "rnd_agg_14__par" => rnd_agg_14__par::make,
-      "rnd_prec_01__to" => rnd_prec_01__to::make,
-      "rnd_prec_03__par" => rnd_prec_03__par::make,
-      "rnd_prec_04__topar" => rnd_prec_04__topar::make,
-      "rnd_prec_06__pari" => rnd_prec_06__pari::make,
-      "rnd_prec_08__ser" => rnd_prec_08__ser::make,
-      "rnd_prea_02__ser" => rnd_prea_02__ser::make,
-      "rnd_prea_04__pari" => rnd_prea_04__pari::make,
-      "rnd_prea_07__par" => rnd_prea_07__par::make,
+      "lat_tree__to" => lat_tree__to::make,
+      "bool_lat__ser" => bool_lat__ser::make,
+      "lat_multi_improve__pari" => lat_multi_improve__pari::make,
+      "lat_count_all__ser" => lat_count_all__ser::make,
+      "lat_input__pari" => lat_input__pari::make,
+      "lat_input__src2" => lat_input__src2::make,
+      "count_paths__par" => count_paths__par::make,
+      "count_paths__src1" => count_paths__src1::make,
+      "neg_basic__ser" => neg_basic__ser::make,
+      "neg_basic__src0" => neg_basic__src0::make,
+      "neg_basic__srcpar" => neg_basic__srcpar::make,
+      "agg_minmaxsum__par" => agg_minmaxsum__par::make,
+      "agg_lattice__par" => agg_lattice__par::make,
+      "neg_rec_after__par" => neg_rec_after__par::make,
+      "agg_empty__par" => agg_empty__par::make,
+      "agg_empty_rel__topar" => agg_empty_rel__topar::make,
+      "agg_pre_join__pari" => agg_pre_join__pari::make,
+      "disj__gen" => disj__gen::make,
+      "disj__runpar" => disj__runpar::make,
+      "disj_nested__ser" => disj_nested__ser::make,
+      "pat_args__exp" => pat_args__exp::make,
+      "multi_head_disj__par" => multi_head_disj__par::make,
+      "neg_in_disj__exppar" => neg_in_disj__exppar::make,
+      "mac_basic__gen" => mac_basic__gen::make,
+      "mac_basic__runpar" => mac_basic__runpar::make,
+      "mac_capture__exppar" => mac_capture__exppar::make,
+      "mac_gensym_disj__pari" => mac_gensym_disj__pari::make,
+      "mac_block__ser" => mac_block__ser::make,
+      "mac_disj__exp" => mac_disj__exp::make,
+      "stress_rel__ser" => stress_rel__ser::make,
+      "rnd_core_02__pari" => rnd_core_02__pari::make,
+      "rnd_core_05__par" => rnd_core_05__par::make,
+      "rnd_core_08__ser" => rnd_core_08__ser::make,
+      "rnd_core_10__pari" => rnd_core_10__pari::make,
+      "rnd_core_13__par" => rnd_core_13__par::make,
+      "rnd_core_16__ser" => rnd_core_16__ser::make,
+      "rnd_core_18__pari" => rnd_core_18__pari::make,
+      "rnd_core_21__par" => rnd_core_21__par::make,
+      "rnd_core_24__ser" => rnd_core_24__ser::make,
+      "rnd_core_26__pari" => rnd_core_26__pari::make,
+      "rnd_core_29__par" => rnd_core_29__par::make,
+      "rnd_agg_02__ser" => rnd_agg_02__ser::make,
+      "rnd_agg_04__pari" => rnd_agg_04__pari::make,
+      "rnd_agg_07__par" => rnd_agg_07__par::make,
+      "rnd_agg_10__ser" => rnd_agg_10__ser::make,
+      "rnd_agg_12__pari" => rnd_agg_12__pari::make,
+      "rnd_agg_15__par" => rnd_agg_15__par::make,
+      "rnd_prec_02__par" => rnd_prec_02__par::make,
+      "rnd_prec_03__topar" => rnd_prec_03__topar::make,
+      "rnd_prec_05__pari" => rnd_prec_05__pari::make,
+      "rnd_prec_07__ser" => rnd_prec_07__ser::make,
+      "rnd_prec_08__to" => rnd_prec_08__to::make,
+      "rnd_prea_03__ser" => rnd_prea_03__ser::make,
+      "rnd_prea_05__pari" => rnd_prea_05__pari::make,
+      "rnd_prea_08__par" => rnd_prea_08__par::make,
       _ => panic!("no such program variant in this shard: {}", name),
    }
 }
